@@ -547,6 +547,14 @@ func (e *SpecEnv) evalBinary(n *ast.BinaryExpr) (Val, error) {
 		t = a.Ty
 	}
 	boolT := types.Typ[types.Bool]
+	if _, isSl := t.Underlying().(*types.Slice); isSl && (n.Op == token.EQL || n.Op == token.NEQ) {
+		// specification-level identity of slice values (same backing array, offset, length, capacity)
+		r := eq(a.T, b.T)
+		if n.Op == token.NEQ {
+			r = not(r)
+		}
+		return Val{T: r, Ty: boolT}, nil
+	}
 	switch n.Op {
 	case token.LAND:
 		return Val{T: and(a.T, b.T), Ty: boolT}, nil
